@@ -41,15 +41,35 @@ def hostile_arg(rng):
         inner = hostile_arg(rng) if rng.random() < 0.7 else rng.choice(['', 'abc', '1111111111111111111114oLvT2', 'bc1qw508d6qejxtdg4y5r3zarvary0c5xw7kv8f3t4'])
         return '%s(%s)' % (fn, inner.replace(' ', ''))
     if r < 0.6:
-        d = rng.choice([1, 2, 5, 20, 200])
+        d = rng.choice([1, 2, 5, 20, 200, 255, 256, 257, 1000, 5000, 30000])
         return '[' * d + rng.choice(['OP_1', '', '0x1234', 'zz']) + ']' * rng.choice([d, d - 1, d + 1, 0])
     if r < 0.68:
         return rng.choice(['A', 'f', '1', '[', '0x', 'OP_'])[0:2] * rng.choice([100, 1024, 5000, 70000])
     if r < 0.76:
         return rng.choice(['1111111111111111111114oLvT2', '1111111111111111111114oLvT3', 'bc1qw508d6qejxtdg4y5r3zarvary0c5xw7kv8f3t4', 'bcrt1p', 'tb1', 'bc1', '1', 'xyz'])
+    if r < 0.80:
+        # checksum-valid encodings whose payload is unusual: bech32(m) with 0, 1, 2 ... data symbols, any witness version symbol,
+        # bits that do not regroup into bytes; base58check over 0..4 payload bytes - bare or under the matching decoder
+        return odd_encoding(rng) if rng.random() < 0.5 else decoder_call(rng, inline=True)
     if r < 0.84:
         return bytes(rng.choice([0x01, 0x7f, 0x80, 0xff, 0x1b, 0x0a]) for _ in range(rng.randint(1, 8))).decode('latin1').replace('\x00', '')
     return rng.choice(c07.NAMES if hasattr(c07, 'NAMES') else ['DUP'])
+
+
+def odd_encoding(rng):
+    """a checksum-valid bech32 / bech32m / base58check string with an unusual payload"""
+    from ref import codec
+    if rng.random() < 0.7:
+        n5 = rng.choice([0, 0, 1, 2, 3, 7, 8, 9, 33, 52, 53, 54, 100])
+        return codec.bech32_encode(rng.choice(['a', 'bc', 'tb', 'bcrt', 'x' * 20, '1']), [rng.randrange(32) for _ in range(n5)], rng.choice([1, 0x2bc830a3]))
+    return codec.b58check_encode(rb(rng, rng.choice([0, 0, 1, 2, 4, 21, 33])))
+
+
+def decoder_call(rng, inline=False):
+    """a decoding transform applied to such a string: command form (`bech32-decode X`) or inline form (`bech32dec(X)`)"""
+    if inline:
+        return '%s(%s)' % (rng.choice(['bech32dec', 'base58chkdec', 'addr_to_spk']), odd_encoding(rng))
+    return '%s %s' % (rng.choice(['bech32-decode', 'base58chk-decode', 'addr-to-scriptpubkey']), odd_encoding(rng))
 
 
 def mutate_hex(rng, h):
@@ -219,12 +239,15 @@ def gen_repl(rng):
             cmds.append(rng.choice(REPL_CMDS if rng.random() < 0.8 else CODESEP_EXECS))
         elif q < 0.9:
             nm = rng.choice(TF_NAMES)
+            if rng.random() < 0.15:
+                cmds.append('tf ' + decoder_call(rng))
+                continue
             cmds.append('tf %s %s' % (nm, ' '.join(hostile_arg(rng).replace('\n', '').replace('\r', '') for _ in range(rng.choice([0, 1, 1, 2, 3, 4])))))
         else:
             cmds.append('exec ' + ' '.join(rng.choice([hostile_arg(rng).replace('\n', ''), 'OP_' + rng.choice(list(OP))]) for _ in range(rng.choice([1, 2, 5]))))
     # the scripted REPL feeds GNU readline from a pipe, a mode readline is not made for (it redisplays the whole line for
-    # every character: quadratic time, and its display buffers overflow past ~2000 characters): keep lines short there
-    cmds = [c[:1500] for c in cmds]
+    # every character: quadratic time, and its 1024-byte display buffers overflow - seen with lines of 1011..2000 characters): keep lines under 900 characters there
+    cmds = [c[:900] for c in cmds]
     text = '\n'.join(c.replace('\x00', '') for c in cmds) + '\n'
     if rng.random() < 0.1:
         text += rng.choice(['"unterminated', "'unterminated", 'tf echo "a', 'exec \\'])      # no trailing newline: EOF inside a quote
@@ -394,6 +417,10 @@ def fuzz_seed_corpus(rng, target, d, n):
         try:
             if target == 'value':
                 b = rng.choice([hostile_arg(rng), c07.render(rng, gen.gen_deep(rng, BASE, STANDARD, 6, [])) if hasattr(c07, 'render') else hostile_arg(rng)]).encode('latin1', 'replace')
+            elif target == 'tf' and i % 5 == 0:
+                b = decoder_call(rng).encode()
+            elif target == 'value' and i % 5 == 0:
+                b = decoder_call(rng, inline=True).encode()
             elif target == 'tf':
                 b = ('%s %s' % (rng.choice(TF_NAMES), ' '.join(hostile_arg(rng) for _ in range(rng.choice([0, 1, 2, 3]))))).encode('latin1', 'replace')
             elif target == 'tx':
